@@ -203,7 +203,7 @@ def State.selector (s : State) : SelReq → Option (State × SelM)
     | none => none
     | some ah =>
       match (getLive s.anns ah).bind AnnM.textsel with
-      | none => some (s, .ann ah)         -- the target has no single text selection: the offset is dropped
+      | none => none                      -- the target has no single text selection the offset could be relative to: refused
       | some (rh, pt) =>
         match getLive s.res rh with
         | none => none
